@@ -93,7 +93,8 @@ let () =
     | _ -> { !cfg with fix_f7 = true; fix_f14 = false; fix_f7b = true } in
   let tin = ref tinit0 in
   (* descriptors the TightVNC extension lost (TLostFd), per tight variant: they show at teardown *)
-  let tlost = Array.make 3 0 in
+  let ntv = 5 in
+  let tlost = Array.make ntv 0 in
   let i = ref 0 in
   let take_env () =
     let envs = ref [] and txt = ref [] in
@@ -111,7 +112,7 @@ let () =
     let line = arr.(!i) in
     (match split_ws line with
      | [] -> ()
-     | "case" :: _ -> print_endline line; Array.fill sts 0 nv st0; Array.fill tlost 0 3 0; perms := []; dflt := true
+     | "case" :: _ -> print_endline line; Array.fill sts 0 nv st0; Array.fill tlost 0 ntv 0; perms := []; dflt := true
      | ["cfg"; p; cb; hm] ->
        let h = if hm = "none" then None else if hm = "sb" then Some (bytes_of_string (root ^ "/sb")) else Some (hb hm) in
        cfg := { permit = (p = "1"); has_cb = (cb <> "none"); home = h; fix_f7 = true; fix_f14 = true; fix_f7b = true };
@@ -150,9 +151,9 @@ let () =
          let ((ok, _), s') = run_gone (vcfg k) [] sts.(k) in
          sts.(k) <- s'; (ok, int_of_z s'.lost_fds + (if s'.fd_open then 1 else 0))) in
        let line (ok, n) extra = if ok then [Printf.sprintf "leak %d" (n + extra)] else ["hang"] in
-       (* 0..nv-1: the UltraVNC variants with the tree's TightVNC flow; nv, nv+1: the tree's UltraVNC flow with the
-          other two TightVNC variants *)
-       let outs = Array.init (nv + 2) (fun k -> if k < nv then line res.(k) tlost.(0) else line res.(0) tlost.(k - nv + 1)) in
+       (* 0..nv-1: the UltraVNC variants with the tree's TightVNC flow; nv..: the tree's UltraVNC flow with the
+          other TightVNC variants *)
+       let outs = Array.init (nv + ntv - 1) (fun k -> if k < nv then line res.(k) tlost.(0) else line res.(0) tlost.(k - nv + 1)) in
        emit_all outs
      | "targs" :: pw :: args ->
        let _ = take_env () in
@@ -207,9 +208,10 @@ let () =
          | TStatEntry (d, n) -> "fs stat " ^ hex_of_bytes d ^ "2f" ^ hex_of_bytes n
          | TOverflow -> "overflow" | TLostFd -> "lostfd" in
        let gate = tight_gate true (en = "1") (vo = "1") in
-       (* variant 0 = the tree; 1 = with the proposed notes/fix_C19_4/5.diff; 2 = the flow before 7654ac8 *)
-       let vs = [| v_tight_tree; v_tight_fixed; v_tight_prefix |] in
-       let sts = Array.make 3 tstate0 in
+       (* variant 0 = the tree; regression variants: 1 = before fb3fc0a and 2214ab9, 2 = before fb3fc0a, 3 = before 2214ab9,
+          4 = before 7654ac8 *)
+       let vs = [| v_tight_tree; v_tight_pre45; v_tight_pre4; v_tight_pre5; v_tight_prefix |] in
+       let sts = Array.make ntv tstate0 in
        List.iter (fun (kind, m) ->
            print_endline ("m " ^ kind);
            match m with
@@ -221,13 +223,13 @@ let () =
                    let (ops, _) = tight_step_g vs.(0) ftproot sts.(0) (gate, TUpload (n, true)) in
                    if List.exists (function TCreat _ -> true | _ -> false) ops then TUpload (n, next_creat ()) else m0
                  | x -> x) in
-             let outs = Array.init 3 (fun k ->
+             let outs = Array.init ntv (fun k ->
                  let (o, s') = tight_step_g vs.(k) ftproot sts.(k) (gate, m1) in
                  sts.(k) <- s';
                  tlost.(k) <- tlost.(k) + List.length (List.filter (fun x -> x = TLostFd) o);
                  List.map op_line (List.filter (fun x -> x <> TLostFd) o)) in
              List.iter print_endline outs.(0);
-             for k = 1 to 2 do
+             for k = 1 to ntv - 1 do
                if outs.(k) <> outs.(0) then begin
                  print_endline (Printf.sprintf "alt%d -" k);
                  List.iter (fun l -> print_endline (Printf.sprintf "alt%d %s" k l)) outs.(k) end
